@@ -165,16 +165,20 @@ class Tokenizer:
             elif tok.type == Token.NEWLINE:
                 if not is_indented:
                     break
-                elif not tok.string:
-                    # empty new line added by the tokenizer
-                    continue
 
-            # update captured lines
-            if tok.start[0] not in lines:
-                on_header_line = tok.start[0] == start[0]
-                lines[tok.start[0]] = tok.line[tok.start[1] :] if on_header_line else tok.line
+            # update captured lines (a token spanning several physical lines carries all but its last one:
+            # rows without a token of their own, e.g. the inside of a triple-quoted string, are taken from it)
+            text = tok.line
+            if tok.start[0] == start[0] and tok.start[0] not in lines:
+                text = text[tok.start[1] :]  # the rest of the header line
+            parts = text.split("\n")
+            rows = [part + "\n" for part in parts[:-1]]
+            if parts[-1]:
+                rows.append(parts[-1])
+            for i, row in enumerate(rows):
+                lines.setdefault(tok.start[0] + i, row)
 
-        string = "".join(lines.values())
+        string = "".join(lines[row] for row in sorted(lines))
         if is_indented:
             import textwrap
 
